@@ -496,9 +496,9 @@ class Gen:
     # -- output ----------------------------------------------------------------
     def emit_rust(self, modname, table_path):
         o = []
+        o.append("//@ include-into src/lib.rs")
         o.append("// GENERATED by lib/gen_c19.py from %s and a scan of the crate source." % table_path)
         o.append("// Do not edit: regenerate. One assertion per named constant: crate value == oracle value.")
-        o.append("//@ include-into src/lib.rs")
         o.append("#[cfg(kani)]")
         o.append("#[allow(unused_imports, clippy::all)]")
         o.append("mod %s {" % modname)
